@@ -309,8 +309,9 @@ void option_class(uint32_t n, bool &inner, bool &outer) {
   case r1::O_URI_HOST: case r1::O_URI_PORT: case r1::O_OSCORE: case r1::O_PROXY_URI: case r1::O_PROXY_SCHEME:
   case r1::O_HOP_LIMIT:   // RFC 8768 §3: class U
     inner = false; outer = true; return;
-  case r1::O_OBSERVE: case r1::O_NO_RESPONSE:
+  case r1::O_OBSERVE:
     inner = true; outer = true; return;
+  // No-Response (RFC 8613 4.1.3.6): "If used, No-Response MUST be Inner ... The Outer option SHOULD NOT be present" -> inner only
   }
   // Figure 5 class E, the E+U options used as inner only here (Max-Age, Block1/2, Size1/2), and "a new CoAP option SHOULD be of class E"
   inner = true; outer = false;
@@ -587,7 +588,7 @@ std::string check_outer(const r1::Msg &plain, const r1::Msg &outer, bool request
   std::vector<r1::Opt> exp;
   for (auto &o : plain.opts)
     switch (o.num) {
-    case r1::O_URI_HOST: case r1::O_URI_PORT: case r1::O_PROXY_SCHEME: case r1::O_HOP_LIMIT: case r1::O_OBSERVE: case r1::O_NO_RESPONSE:
+    case r1::O_URI_HOST: case r1::O_URI_PORT: case r1::O_PROXY_SCHEME: case r1::O_HOP_LIMIT: case r1::O_OBSERVE:
       exp.push_back(o);
     }
   exp.push_back(r1::Opt{r1::O_OSCORE, exp_option});
